@@ -36,6 +36,10 @@ fn drive(bytes: &[u8], v: &mut Verdict) -> Result<(), String> {
     let served = |h: &MemDev| h.st.borrow().bytes_read;
     let (r, peak) = measure(|| guard(|| E57Reader::new(dev)));
     check_call("E57Reader::new", n, 0, peak, served(&h))?;
+    // opening parses the XML into a tree: a few dozen bytes per byte of XML at most
+    if peak > CONST_BYTES + 64 * n {
+        return Err(format!("E57Reader::new grew the heap by {peak} bytes; bound for opening is 64 MiB + 64 x input size {n}"));
+    }
     let mut rd = match r {
         Ok(Ok(r)) => r,
         _ => {
@@ -141,7 +145,7 @@ impl Check for C09 {
          emptied prototypes / containers, huge recordCount, huge lengths and offsets in file / section / packet / blob headers, stream lengths, DOCTYPE entity definitions referenced thousands of times, chains of overlapping packet headers whose declared length is smaller than their streams, thousands of added records, deep \
          nesting). Every iterator is driven to its first Err or None (harness cap: 3e6 / prototype length items, at most 200000) and every blob is \
          extracted, in a worker process with an address space limit and a counting allocator. Deterministic oracles per single call (new, iterator \
-         creation, each next(), each blob()): peak heap growth <= 64 MiB + 1024 x input size; bytes read from the device \
+         creation, each next(), each blob()): peak heap growth <= 64 MiB + 1024 x input size (opening: 64 MiB + 64 x input size); bytes read from the device \
          <= 2 x input size + 64 KiB; an iterator never yields more than recordCount items; blob() returning Ok(k) wrote exactly k <= input size \
          bytes. Backstop: 20 s watchdog per case, confirmed alone with 60 s (confirmed => violation, unconfirmed => exit 2). Non-trivial: \
          script containing a resource-relevant mutation and passing open."
@@ -164,11 +168,11 @@ impl Check for C09 {
             .chain([(2_000u32, 100_000u32), (20_000, 5_000_000)].iter().map(|(records, packets)| Case { script: Script { seed: crate::untrusted::Seed::TinyPackets { records: *records, packets: *packets }, muts: vec![], reseal: true } }))
             // thousands of namespace declarations in scope of thousands of elements that declare one more (the XML parser
             // copies and compares all of them for each): white space of every kind between the attributes
-            .chain((0..4u8).flat_map(|sep| [(2000u16, 20_000u32), (300, 100)].into_iter().map(move |(on_root, leaves)| Case { script: Script { seed: crate::untrusted::Seed::ManyNamespaces { on_root, leaves, sep }, muts: vec![], reseal: true } })))
+            .chain((0..4u8).flat_map(|sep| [(2000u16, 20_000u32), (500, 200_000), (300, 100)].into_iter().map(move |(on_root, leaves)| Case { script: Script { seed: crate::untrusted::Seed::ManyNamespaces { on_root, leaves, sep }, muts: vec![], reseal: true } })))
             .collect()
     }
     fn describe_fixed(_t: Tier) -> Option<String> {
-        Some("4 hand-built conforming files: a 1-bit record followed by 40 .. 3000 constant records, one data packet with 20 000 .. 440 000 points; 2 hand-built files with 2 000 / 20 000 records and 100 000 / 5 000 000 minimum-size ignored packets; 8 hand-built files whose root declares 300 / 2 000 namespaces above 100 / 20 000 elements declaring one more, with space, line feed, tab or carriage return between the attributes".into())
+        Some("4 hand-built conforming files: a 1-bit record followed by 40 .. 3000 constant records, one data packet with 20 000 .. 440 000 points; 2 hand-built files with 2 000 / 20 000 records and 100 000 / 5 000 000 minimum-size ignored packets; 12 hand-built files whose root declares 300 / 500 / 2 000 namespaces above 100 / 200 000 / 20 000 elements declaring one more, with space, line feed, tab or carriage return between the attributes".into())
     }
     fn gen(s: &mut Src, _t: Tier) -> Case {
         let mut script = gen_script(s);
